@@ -26,6 +26,8 @@ def classify(spec, problems):
             k = kf.name_kf(spec, p["name"])
         elif p.get("kind") == "exec-error" and p.get("etype") in ("NameError", "UnboundLocalError"):
             k = kf.name_kf(spec, kf.name_error_name(p.get("error")))
+        elif p.get("kind") == "syntax-error":
+            k = kf.kf12(spec, [p])
         else:
             k = None
         if k is None:
@@ -101,6 +103,21 @@ def shard(tier, seed, shard, nshards):
                     s2.extra = ""
                 run_one(st, "repo", s2, m, None, rnd, execute=(m == "plain"))
     for i in range(n):
+        if i % 40 == 39:
+            # coordinate-style stamps on flattened ranks (KF-12 territory)
+            from ..gen import einsum as GE, mapping as GM, spacetime as GS
+            rnd = random.Random("%s-flatcoord-%d-%d-%d" % (ID, seed, shard, i))
+            spec = None
+            for _ in range(30):
+                b, info = GE.gen_plain(rnd, products_only=True, allow_take=False, max_ranks=3)
+                f = GM.add_flatten(rnd, b, info)
+                if f is not None:
+                    spec = GS.add_spacetime(rnd, f, all_stamped=True, flat_coord=True)
+                    if spec is not None:
+                        break
+            if spec is not None:
+                run_one(st, "flat-coord-stamp", spec, "plain", None, rnd)
+            continue
         it = corpus.item(ID, seed, shard, i)
         if it is None:
             st.bump("status", "generator-gave-up")
